@@ -357,6 +357,19 @@ def ossl_pub_of(der, private):
     return pt
 
 
+def pem_body(pem, label):
+    """DER inside a PEM text with exactly the given label, decoded without the library; None if the armour is not as expected"""
+    import base64
+    text = pem.decode("ascii") if isinstance(pem, (bytes, bytearray)) else pem
+    lines = [ln.strip() for ln in text.strip().splitlines()]
+    if len(lines) < 3 or lines[0] != "-----BEGIN %s-----" % label or lines[-1] != "-----END %s-----" % label:
+        return None
+    try:
+        return base64.b64decode("".join(lines[1:-1]), validate=True)
+    except Exception:
+        return None
+
+
 def run_case(ctx, case):
     kind = case[0]
     o = Outcome("ok", True)
@@ -393,6 +406,9 @@ def run_case(ctx, case):
             pem = sk.to_pem(point_encoding=pe, format=fmt, curve_parameters_encoding=par)
             if SigningKey.from_pem(pem) != sk:
                 return o.viol("rt|differs|priv-pem", "%s: PEM round trip differs" % what)
+            # PEM is the armoured DER of the SAME parameters (decoded here without the library)
+            if pem_body(pem, "EC PRIVATE KEY" if fmt == "ssleay" else "PRIVATE KEY") != der:
+                return o.viol("bytes|pem-not-armoured-der|priv", "%s: the PEM body is not the DER encoding made with the same parameters" % what)
             try:
                 pt = ossl_pub_of(der, True)
             except ossl.OsslError as e:
@@ -418,6 +434,8 @@ def run_case(ctx, case):
                 return o.viol("rt|reencode|pub", "%s: the decoded key re-encodes (default form) to other bytes than the original key" % what)
             if VerifyingKey.from_pem(vk.to_pem(point_encoding=pe, curve_parameters_encoding=par)) != vk:
                 return o.viol("rt|differs|pub-pem", "%s: PEM round trip differs" % what)
+            if pem_body(vk.to_pem(point_encoding=pe, curve_parameters_encoding=par), "PUBLIC KEY") != der:
+                return o.viol("bytes|pem-not-armoured-der|pub", "%s: the PEM body is not the DER encoding made with the same parameters" % what)
             try:
                 pt = ossl_pub_of(der, False)
             except ossl.OsslError as e:
